@@ -3,7 +3,7 @@
    shortest-digit printing are oracles compared with Rust std by the harness. *)
 From Flocq Require Import Core BinarySingleNaN.
 Require Import ZArith NArith Bool List Arith Reals Lia. Import ListNotations.
-Require Import F64 Dec Types Generic Lang Builtins BuiltinFacts FracFacts FremFacts SeqLaws GenBuiltins.
+Require Import F64 Dec Types Generic Lang Builtins BuiltinFacts FracFacts FremFacts SeqLaws Show ShowFacts GenBuiltins.
 
 (* chr and ord are mutually inverse on the whole ASCII range 0..127 and chr rejects the neighbourhood (finite sweeps; bounds in the statements) *)
 Theorem C17_chr_ord_inverse : forallb chr_ord_ok (zrange 0 128) = true.
@@ -55,3 +55,18 @@ Proof. exact hex_builtin. Qed.
 Example C17_hex_example : to_hex 255 = [70;70]%N /\ to_hex 0 = [48]%N /\ to_hex 4096 = [49;48;48;48]%N.
 Proof. repeat split; reflexivity. Qed.
 Print Assumptions C17_hex_denotes. Print Assumptions C17_int_to_hex_builtin.
+
+(* float(str(x)) = x for every number: str prints the shortest decimal text that float maps back to x (Show.v; that Rust prints exactly this text is compared call by call), so whatever str answers
+   for a number that is not NaN, float of that text is that number bit for bit - every double: signed zeros, subnormals, the largest finite one, infinities *)
+Theorem C17_float_str_roundtrip : forall off x s, x <> B754_nan -> call_builtin off (A [115;116;114]%Z) [VNum x] = BOk (VStr s) -> call_builtin off (A [102;108;111;97;116]%Z) [VStr s] = BOk (VNum x).
+Proof.
+  intros off x s Hn H. cbn [call_builtin A map leqb] in H. cbn in H. destruct (show_f64 x) as [t|] eqn:E; [|discriminate]. injection H as <-.
+  cbn [call_builtin A map leqb]. cbn. rewrite (show_roundtrip x t E Hn). reflexivity.
+Qed.
+(* non-vacuity: str answers on the boundary values (a finite sweep), with the texts Rust prints *)
+Example C17_str_examples :
+  show_f64 (of_bits 4591870180066957722) = Some [48;46;49]%N /\ show_f64 (of_bits 4890909195324358656) = Some [57;50;50;51;51;55;50;48;51;54;56;53;52;55;55;54;48;48;48]%N /\
+  show_f64 (of_bits 4607182418800017409) = Some [49;46;48;48;48;48;48;48;48;48;48;48;48;48;48;48;48;50]%N /\ show_f64 (of_bits 9223372036854775808) = Some [45;48]%N /\
+  forallb (fun z => match show_f64 (of_bits z) with Some _ => true | None => false end) [1; 2; 4503599627370495; 4503599627370496; 9218868437227405311; 9218868437227405312; 4602678819172646912; 4613937818241073152; 4841369599423283200; 13835058055282163712; 4503599627370497; 4607182418800017407] = true.
+Proof. vm_compute. repeat split; reflexivity. Qed.
+Print Assumptions C17_float_str_roundtrip.
